@@ -219,6 +219,17 @@ func FillOperands(t *rapid.T, c *Case) {
 			}
 			c.QExp = int32(rapid.IntRange(1, hi).Draw(t, "qft"))
 		}
+		if ctx.Emin <= -90000 && gen.Pick(t, 40, "qgaplimit") == 1 {
+			// a target exactly 100000 (+/-1) below the operand's exponent, both legal: the
+			// rescaling needs the largest power of ten the package supports; a zero or
+			// one-digit coefficient keeps the result within any precision
+			c.X = core.Dec{Coeff: []string{"0", "0", "7"}[gen.Pick(t, 3, "qglc")], Neg: rapid.Bool().Draw(t, "qglneg")}
+			c.X.Exp = int32(rapid.IntRange(0, int(ctx.Emax)).Draw(t, "qglx"))
+			if c.X.Exp > gen.Limit-1 {
+				c.X.Exp = gen.Limit - 1
+			}
+			c.QExp = c.X.Exp - gen.Limit + int32(rapid.IntRange(-1, 1).Draw(t, "qgld"))
+		}
 	case "rtie", "rtiv", "ceil", "floor":
 		c.X = IntegralOperand(t, ctx)
 	case "reduce":
@@ -422,8 +433,9 @@ func NearLimit(c Case, ex *ref.Exact) bool {
 	if c.Op == "quantize" {
 		// only a target far *below* the operand's exponent needs a power of ten beyond the
 		// package limit; a target far above it merely drops every digit
+		// (exact thresholds: the package limit applies to the target and to the rescaling gap)
 		gap := int64(c.QExp) - int64(c.X.Exp)
-		if gap < -edge || int64(c.QExp) > edge || int64(c.QExp) < -edge {
+		if gap < -gen.Limit || int64(c.QExp) > gen.Limit || int64(c.QExp) < -gen.Limit {
 			return true
 		}
 	}
@@ -446,9 +458,8 @@ func NearLimit(c Case, ex *ref.Exact) bool {
 // need a power of ten beyond the limit. A target above the operand's exponent only drops
 // digits and is never a reason.
 func QuantizeMayReject(c Case) bool {
-	const edge = gen.Limit - 2000
 	gap := int64(c.QExp) - int64(c.X.Exp)
-	return gap < -edge || int64(c.QExp) > edge || int64(c.QExp) < -edge
+	return gap < -gen.Limit || int64(c.QExp) > gen.Limit || int64(c.QExp) < -gen.Limit
 }
 
 // Reference computes the expected outcome for the operations that have an exact-result
@@ -503,12 +514,9 @@ func Reference(c Case) Expect {
 		ex := ref.FromDec(c.X)
 		ex.Neg = !ex.Neg
 		if ex.IsZero() {
-			ex.Neg = false
-			if ref.Mode(ctx.Rounding) == "floor" {
-				// GDA minus gives -0 under floor, Decimal.Neg documents +0: not asserted.
-				setExact(ex)
-				return e
-			}
+			// Neg is 0 - x: the exact zero difference of +0 and +0 is +0, except under floor (-0);
+			// 0 - (-0) = 0 + 0 = +0 in every mode
+			ex.Neg = ref.Mode(ctx.Rounding) == "floor" && !c.X.Neg
 		}
 		value(ex)
 	case "round", "setstring":
